@@ -511,14 +511,19 @@ def device_datagrams(rng, dev, src=None):
     for j, sv in enumerate(svs):
         groups[j % k if j < k else rng.randrange(k)].append(sv)
     out = []
-    for g in groups:
+    # multi-homed host: some answers carry only a link-local A record, the routable one comes in another datagram
+    carrier = rng.randrange(k) if (k > 1 and rng.random() < 0.3) else None
+    for gi, g in enumerate(groups):
         ans, add = [], []
         ttl = rng.choice([10, 10, 120, 4500])
         for sv in g:
             a, b = service_records(dev, sv, with_ptr=rng.random() < 0.85, ttl=ttl)
             ans += a
             add += b
-        add.append(rec_a([dev["host"], "local"], dev["ip"], ttl))
+        if carrier is None or gi == carrier:
+            add.append(rec_a([dev["host"], "local"], dev["ip"], ttl))
+        elif rng.random() < 0.8:
+            add.append(rec_a([dev["host"], "local"], (169 << 24) + (254 << 16) + 7 * 256 + dev["ip"] % 256, ttl))
         if rng.random() < 0.25:
             add.insert(rng.randrange(len(add) + 1), rec_a([dev["host"], "local"], (169 << 24) + (254 << 16) + rng.randrange(65536), ttl))
         if rng.random() < 0.2:
@@ -529,6 +534,16 @@ def device_datagrams(rng, dev, src=None):
             add.append(devinfo_record(dev, ttl))
         out.append({"src": src if src is not None else dev["ip"],
                     "msg": {"answers": ans, "additional": add, "compress": rng.random() < 0.6}})
+    if rng.random() < 0.3:
+        # the same answer sent once more from the link-local side of a multi-homed host: identical records,
+        # but the A record is the link-local one
+        base = rng.choice([d for d in out if any(r["type"] == T_A and r["ip"] == dev["ip"] for r in d["msg"]["additional"])] or [None])
+        if base is not None:
+            twin = json.loads(json.dumps(base))
+            for r in twin["msg"]["additional"]:
+                if r["type"] == T_A and r["ip"] == dev["ip"]:
+                    r["ip"] = (169 << 24) + (254 << 16) + 9 * 256 + dev["ip"] % 256
+            out.insert(rng.randrange(len(out) + 1), twin)
     return out
 
 
@@ -604,6 +619,21 @@ def gen_consistent(rng, mode, with_ids):
             d["host"] = i
         dgrams += dg
     kind = "devices"
+    if rng.random() < 0.2 and ndev < 4:
+        # a multi-homed device answering on two interfaces (wired + wifi): the same services and identifiers
+        # from two source addresses, each with its own A record -> one configuration per address
+        kind = "two-interfaces"
+        twin = json.loads(json.dumps(rng.choice(devs)))
+        twin["ip"] = (10 << 24) + (3 << 8) + 60 + ndev
+        twin["host"] = twin["host"] + "-wifi"
+        devs.append(twin)
+        dg = device_datagrams(rng, twin)
+        if mode == "u" and rng.random() < 0.7:
+            dg = fit_to_queries(rng, dg, nqueries(protos))
+        for d in dg:
+            d["host"] = ndev
+        dgrams += dg
+        ndev += 1
     if mode == "m" and rng.random() < 0.12:
         # a sleep proxy answers on behalf of a sleeping device: PTR only, then the full records
         kind = "sleep-proxy"
@@ -729,7 +759,7 @@ def gen_inconsistent(rng, mode, with_ids):
     return sc
 
 
-def gen_orders(rng, n, nperm, ndup, exhaustive):
+def gen_orders(rng, n, nperm, ndup, exhaustive, nq=4):
     """Delivery orders over datagram indices 0..n-1: identity first, then permutations, then
     duplicated deliveries."""
     base = list(range(n))
@@ -754,6 +784,17 @@ def gen_orders(rng, n, nperm, ndup, exhaustive):
         rng.shuffle(p)
         for _ in range(rng.randint(1, 3)):
             p.insert(rng.randrange(len(p) + 1), rng.choice(base))
+        if tuple(p) not in seen:
+            seen.add(tuple(p))
+            orders.append(p)
+    # re-sent queries: one answer repeated at least as often as there are queries before the others arrive
+    firsts = base[:] if 1 < n <= 4 else (rng.sample(base, 3) if n > 4 else [])
+    for x in firsts:
+        p = [i for i in base if i != x]
+        rng.shuffle(p)
+        p = [x] * (nq + rng.randint(0, 1)) + p
+        if rng.random() < 0.5:
+            p.append(x)
         if tuple(p) not in seen:
             seen.add(tuple(p))
             orders.append(p)
@@ -1114,7 +1155,7 @@ def run(ctx):
                 ex = nd <= 5 or (nd == 6 and rng.random() < 0.15)
             else:
                 ex = nd <= 4 and rng.random() < 0.35
-            orders = gen_orders(rng, nd, nperm, ndup, ex)
+            orders = gen_orders(rng, nd, nperm, ndup, ex, nqueries(sc["protos"]))
             # the same deliveries handed over as one batch: all of them for unicast, every other one for multicast
             runs = [(o, False) for o in orders]
             runs += [(o, True) for j, o in enumerate(orders) if mode == "u" or j % 2 == 0]
